@@ -26,6 +26,10 @@ pub assume_specification<T, U, F: FnOnce(T) -> U> [Option::<T>::map_or] (o: Opti
     requires o is Some ==> f.requires((o.unwrap(),)),
     ensures o is None ==> r == d, o is Some ==> f.ensures((o.unwrap(),), r);
 
+pub assume_specification [u64::abs_diff] (a: u64, b: u64) -> (r: u64) ensures r == (if a >= b { a - b } else { b - a });
+pub assume_specification [u32::abs_diff] (a: u32, b: u32) -> (r: u32) ensures r == (if a >= b { a - b } else { b - a });
+pub assume_specification [i32::abs_diff] (a: i32, b: i32) -> (r: u32) ensures r as int == (if a >= b { a - b } else { b - a });
+pub assume_specification [i32::abs] (a: i32) -> (r: i32) requires a != i32::MIN ensures r == (if a >= 0 { a as int } else { -a });
 pub assume_specification<T> [bool::then_some] (b: bool, t: T) -> (r: Option<T>)
     ensures b ==> r == Some(t), !b ==> r is None;
 
